@@ -1115,6 +1115,13 @@ func checkGeometryAccess(c *core.Ctx, pkg *packages.Package, dense, sparse []str
 				return true // contiguous-direction sub-slice: start, length and branch of 'transposed' decided by C10.R2
 			case "MarshalJSON":
 				return true // view test and re-pack decided by C10.R5
+			case "ITERATOR", "ITERATOR_FROM":
+				// sparse matrices iterate their delegate vector; that is right for a view exactly when the wrapper skips the
+				// entries outside the view: the constructor calls skipOutside() on the result, and skipOutside compares
+				// the view coordinates with the view extents
+				if strings.HasPrefix(T, "Sparse") && s.Sel.Name == "values" && sparseIteratorSkipsOutside(pkg, fd, T) {
+					return true
+				}
 			}
 			// values[index(...)] / values.AT(index(...)) forms
 			if s.Sel.Name == "values" {
@@ -1168,6 +1175,65 @@ func checkGeometryAccess(c *core.Ctx, pkg *packages.Package, dense, sparse []str
 			}
 		}
 	}
+}
+
+// sparseIteratorSkipsOutside: fd (ITERATOR / ITERATOR_FROM of sparse matrix type T) calls r.skipOutside() on the iterator
+// it returns, and (*TIterator).skipOutside advances while Index() lies outside [0,rows) x [0,cols).
+func sparseIteratorSkipsOutside(pkg *packages.Package, fd *ast.FuncDecl, T string) bool {
+	calls := false
+	ast.Inspect(fd.Body, func(n ast.Node) bool {
+		if ce, ok := n.(*ast.CallExpr); ok && calleeName(ce) == "skipOutside" && len(ce.Args) == 0 {
+			calls = true
+		}
+		return true
+	})
+	if !calls {
+		return false
+	}
+	sk := core.FindMethod(pkg, T+"Iterator", "skipOutside")
+	nx := core.FindMethod(pkg, T+"Iterator", "Next")
+	if sk == nil || nx == nil {
+		return false
+	}
+	// Next re-establishes the invariant
+	nextSkips := false
+	ast.Inspect(nx.Body, func(n ast.Node) bool {
+		if ce, ok := n.(*ast.CallExpr); ok && calleeName(ce) == "skipOutside" {
+			nextSkips = true
+		}
+		return true
+	})
+	// skipOutside: a loop that reads Index() and compares with rows and cols and 0
+	readsIndex, cmpRows, cmpCols, cmpZero, advances := false, false, false, 0, false
+	ast.Inspect(sk.Body, func(n ast.Node) bool {
+		switch x := n.(type) {
+		case *ast.CallExpr:
+			switch calleeName(x) {
+			case "Index":
+				readsIndex = true
+			case "Next":
+				advances = true
+			}
+		case *ast.BinaryExpr:
+			if x.Op == token.LSS || x.Op == token.GEQ || x.Op == token.GTR || x.Op == token.LEQ {
+				for _, e := range []ast.Expr{x.X, x.Y} {
+					if se, ok := ast.Unparen(e).(*ast.SelectorExpr); ok {
+						if se.Sel.Name == "rows" {
+							cmpRows = true
+						}
+						if se.Sel.Name == "cols" {
+							cmpCols = true
+						}
+					}
+					if bl, ok := ast.Unparen(e).(*ast.BasicLit); ok && bl.Value == "0" {
+						cmpZero++
+					}
+				}
+			}
+		}
+		return true
+	})
+	return nextSkips && readsIndex && cmpRows && cmpCols && cmpZero >= 2 && advances
 }
 
 // freshLocal: v is initialised from a composite literal / zero value, not from a copy of a header.
